@@ -215,8 +215,10 @@ class Replay:
         finally:
             pool.terminate()
             pool.join()
-        self.states += run.distinct
-        self.transitions += run.generated
+        # a run stopped at `limit` never prints TLC's totals: the emitted (distinct) states seen
+        # are a lower bound of what TLC generated
+        self.states += max(run.distinct, len(seen))
+        self.transitions += max(run.generated, len(seen))
         self.tlc_runs.append({"module": module, "cfg": cfg or module, "distinct": run.distinct,
                               "generated": run.generated, "ok": run.ok, "error": run.error,
                               "wall_s": round(run.wall, 1), "simulate": simulate})
